@@ -48,6 +48,8 @@ var c05Scenarios = []c05Scenario{
 	{"summary", "obisummary", nil, "opaque", "fasta"},
 	{"csv", "obicsv", []string{"-i", "-s", "--count"}, "csv", "fasta"},
 	{"csv-auto", "obicsv", []string{"--auto", "-i"}, "csv", "fasta"},
+	// several input FILES, each larger than the 1 MiB read chunk: records must come out in file order
+	{"convert-multifile", "obiconvert", nil, "opaque", "multifile"},
 }
 
 func c05Scenario_(name string) *c05Scenario {
@@ -91,7 +93,12 @@ func c05Records(sc *c05Scenario, seed int64, nrec int) [][2]string {
 	recs := make([][2]string, nrec)
 	for i := 0; i < nrec; i++ {
 		id := fmt.Sprintf("s%03d", i)
+		if sc.input == "multifile" {
+			id = fmt.Sprintf("s%06d", i)
+		}
 		switch sc.input {
+		case "multifile":
+			recs[i][0] = fmt.Sprintf(">%s {\"count\":%d}\n%s\n", id, 1+r.Intn(6), c05Dna(r, 140+r.Intn(20)))
 		case "fasta":
 			n := 10 + r.Intn(120)
 			s := c05Dna(r, n)
@@ -252,6 +259,19 @@ func c05Run(sc *c05Scenario, recs [][2]string, cpu, batch, gmp int) (string, []b
 		os.WriteFile(filepath.Join(dir, "f.fastq"), []byte(a.String()), 0o644)
 		os.WriteFile(filepath.Join(dir, "r.fastq"), []byte(b.String()), 0o644)
 		args = append(args, "-F", filepath.Join(dir, "f.fastq"), "-R", filepath.Join(dir, "r.fastq"))
+	case "multifile":
+		// the records are split between two files given in order on the command line
+		var f1, f2 strings.Builder
+		for i, r := range recs {
+			if i < len(recs)/2 {
+				f1.WriteString(r[0])
+			} else {
+				f2.WriteString(r[0])
+			}
+		}
+		os.WriteFile(filepath.Join(dir, "a.fasta"), []byte(f1.String()), 0o644)
+		os.WriteFile(filepath.Join(dir, "b.fasta"), []byte(f2.String()), 0o644)
+		args = append(args, filepath.Join(dir, "a.fasta"), filepath.Join(dir, "b.fasta"))
 	case "multiplex":
 		os.WriteFile(filepath.Join(dir, "sheet.csv"), []byte(c05Sheet), 0o644)
 		args = append(args, "-t", filepath.Join(dir, "sheet.csv"))
@@ -263,7 +283,7 @@ func c05Run(sc *c05Scenario, recs [][2]string, cpu, batch, gmp int) (string, []b
 		stdin = a.String()
 	}
 	cmd := exec.Command(bin, args...)
-	if sc.input != "pairs" {
+	if sc.input != "pairs" && sc.input != "multifile" {
 		cmd.Stdin = strings.NewReader(stdin)
 	}
 	cmd.Env = append(os.Environ(), "GOMAXPROCS="+strconv.Itoa(gmp))
@@ -325,6 +345,13 @@ func (c05) Gen(rng *rand.Rand, tier string, emit func(string)) {
 		nrec = 60
 	}
 	for _, sc := range c05Scenarios {
+		if sc.input == "multifile" {
+			ms := rng.Int63n(1 << 30)
+			for _, cfg := range [][3]int{{1, 1000, 1}, {16, 1000, 16}, {8, 1000, 4}, {16, 1000, 16}} {
+				emit(fmt.Sprintf("run %s seed=%d nrec=16000 cpu=%d batch=%d gmp=%d rep=%d", sc.name, ms, cfg[0], cfg[1], cfg[2], cfg[0]))
+			}
+			continue
+		}
 		for s := 0; s < seeds; s++ {
 			seed := rng.Int63n(1 << 30)
 			n := nrec
@@ -401,6 +428,23 @@ func (c05) Exec(c string) (string, []Fail) {
 	}
 	if bytes.Contains(out, []byte{0xDB, 0xDB}) {
 		fails = append(fails, Fail{Sig: sc.name + ".recycled-buffer-in-output", Text: "the output contains the poison value of a recycled buffer"})
+	}
+	if sc.input == "multifile" && st == "ok" {
+		prev, n, misordered := "", 0, false
+		for _, l := range bytes.Split(out, []byte("\n")) {
+			if len(l) > 0 && l[0] == '>' {
+				id := string(bytes.Fields(l[1:])[0])
+				if id <= prev && !misordered {
+					misordered = true
+					fails = append(fails, Fail{Sig: sc.name + ".file-order", Text: fmt.Sprintf("record %s delivered after %s: the records of several input files must come out in file order", id, prev)})
+				}
+				prev = id
+				n++
+			}
+		}
+		if n != nrec {
+			fails = append(fails, Fail{Sig: sc.name + ".records", Text: fmt.Sprintf("%d records out for %d in", n, nrec)})
+		}
 	}
 	// identical bytes for every parallelism configuration and repetition
 	key := fmt.Sprintf("%s/%d/%d", sc.name, seed, nrec)
